@@ -358,6 +358,20 @@ pub struct Session {
 fn free_udp(ip: IpAddr) -> u16 {
     UdpSocket::bind(SocketAddr::new(ip, 0)).unwrap().local_addr().unwrap().port()
 }
+/// A UDP port for a socket that is bound LATER (the server of a peer that may be promoted): taken from a
+/// range of this process's own below the ephemeral range, so that neither the operating system nor another
+/// harness process running in parallel hands it out in between.
+fn reserved_udp(ip: IpAddr) -> u16 {
+    static NEXT: std::sync::atomic::AtomicU16 = std::sync::atomic::AtomicU16::new(0);
+    let base = 10_000 + (std::process::id() % 400) as u16 * 50;
+    for _ in 0..50 {
+        let k = NEXT.fetch_add(1, std::sync::atomic::Ordering::Relaxed) % 50;
+        if UdpSocket::bind(SocketAddr::new(ip, base + k)).is_ok() {
+            return base + k;
+        }
+    }
+    free_udp(ip)
+}
 fn free_tcp(ip: IpAddr) -> u16 {
     TcpListener::bind(SocketAddr::new(ip, 0)).unwrap().local_addr().unwrap().port()
 }
@@ -526,8 +540,15 @@ fn audio_digest(a: &AudioSource) -> String {
         "odd".to_string()
     }
 }
+/// values from 1_000_000 on stand for a TEXTURED material: v = 1_000_000 + 100 * image asset + r; its
+/// base colour texture is the (uuid) image asset of that number
 fn material_of(v: u64) -> StandardMaterial {
-    StandardMaterial { perceptual_roughness: v as f32 / 1000.0, ..Default::default() }
+    let base_color_texture = if v >= 1_000_000 {
+        Some(Handle::Weak(AssetId::Uuid { uuid: asset_uuid((v - 1_000_000) / 100) }))
+    } else {
+        None
+    };
+    StandardMaterial { perceptual_roughness: v as f32 / 1000.0, base_color_texture, ..Default::default() }
 }
 fn material_digest(m: &StandardMaterial) -> String {
     format!("{}", (m.perceptual_roughness * 1000.0).round() as u64)
@@ -777,7 +798,7 @@ impl Session {
                     let id = self.peers[p].app.world().resource::<NetcodeClientTransport>().client_id().raw();
                     self.peers[p].client_id = Some(id);
                     // as the repository's promotion test does: every peer that may become host gets its own port
-                    let own = free_udp(self.ip);
+                    let own = reserved_udp(self.ip);
                     self.peers[p].own_port = own;
                     if let SyncConnectionParameters::Socket { ref mut port, .. } = *self.peers[p].app.world_mut().resource_mut::<SyncConnectionParameters>() {
                         *port = own;
